@@ -18,12 +18,22 @@ SM_TEXT = (
     "executed on the real class under a harness-owned exact clock and compared step by step with a reference model and with clause monitors "
     "transcribed from the property; the result is a coverage statement over the bounded alphabet, not a sample."
 )
+ROBOT_TECH = "exhaustive enumeration of driver-station histories (boot word + one word per loop iteration + shutdown) for generated robot layouts, each executed through the real MagicRobot.startCompetition() in a baton-serialized thread under a harness-owned clock / driver station / NetworkTables"
+ROBOT_TEXT = (
+    "All mode histories up to the stated depth are executed on the real control loop (unique interleaving: the harness only moves the clock "
+    "while the robot thread waits in NotifierDelay.wait), so the claim is a coverage statement over layouts x histories x fault plans within the bounds in the evidence file."
+)
 CHECKS = {
     "C01": ("sm", SM_TECH, SM_TEXT, "4 (sm engine, C01)"),
     "C02": ("sm", SM_TECH, SM_TEXT, "4 (sm engine, C02)"),
     "C03": ("sm", SM_TECH + "; all 16 ordered parameter subsets on each decorator", SM_TEXT, "4 (sm engine, C03)"),
     "C04": ("sm", SM_TECH, SM_TEXT, "4 (sm engine, C04)"),
     "C13": ("sm", SM_TECH + " (AutonomousStateMachine shapes, bracketed on_enable/on_iteration/on_disable histories)", SM_TEXT, "4 (sm engine, C13)"),
+    "C05": ("robot", ROBOT_TECH + "; oracle = loop model (callback order, iteration instants on the P grid, /robot/mode)", ROBOT_TEXT, "4 (robot engine, C05)"),
+    "C06": ("robot", ROBOT_TECH + "; oracle = lifecycle monitors on the callback log", ROBOT_TEXT, "4 (robot engine, C06)"),
+    "C07": ("robot", ROBOT_TECH + " x exhaustive fault plans (every callback site x first/second/every call, all site pairs); differential oracle against the fault-free run", ROBOT_TEXT, "4 (robot engine, C07)"),
+    "C10": ("robot", ROBOT_TECH + " x all 16 assignment scripts x single fault plans; reset model replayed over the observed callback order", ROBOT_TEXT, "4 (robot engine, C10)"),
+    "C11": ("robot", ROBOT_TECH + " x fault plans on getters; independent NetworkTables read after every iteration", ROBOT_TEXT, "4 (robot engine, C11)"),
     "C20": (
         "crc",
         "explicit-state BFS over the closed 128-state checksum register through the real crc7(), plus exhaustive error-pattern and short-message enumeration",
